@@ -487,6 +487,8 @@ var redirectTargets = map[string]string{
 	"VerifStub_blockrelay_UnmarshalJSON": "github.com/attestantio/vouch/services/blockrelay.UnmarshalJSON",
 	// the REST daemon of the relay service opens a listening socket
 	"VerifStub_restdaemon_New": "github.com/attestantio/go-block-relay/services/daemon/rest.New",
+	// opening a wallet reads the wallet stores on disk and decrypts
+	"VerifStub_e2wallet_OpenWallet": "github.com/wealdtech/go-eth2-wallet.OpenWallet",
 }
 
 func sortedKeys(m map[string]int) []string {
